@@ -72,8 +72,14 @@ class PQVec:
 
 
 class PQRef:
+    """a reference to queue t of a PQVec (auto &q = scored_cats[t]): the queue itself lives in the vector, so a havoc of the vector covers it"""
     def __init__(self, pqs, t):
         self.pqs, self.t = pqs, t
+
+    def havoc(self, ex):
+        # the loop changes the vector THROUGH this reference: the vector it refers to is set to an arbitrary state (in place: every name of it sees that)
+        self.pqs.has, self.pqs.score = ex.fresh('pq_has', BARR2), ex.fresh('pq_score', ARR2)
+        return self
 
 
 class Obj(Rec):
@@ -118,6 +124,13 @@ def root_name(n):
     return None
 
 
+def _walk_all(n):
+    if isinstance(n, dict):
+        yield n
+        for c in n.get('inner', []) or []:
+            yield from _walk_all(c)
+
+
 def assigned_names(*nodes):
     """names of the variables a statement may modify (syntactic, conservative)"""
     out = set()
@@ -156,6 +169,22 @@ def assigned_names(*nodes):
     for n in nodes:
         if n:
             walk(n)
+    # references: `T &x = <expression rooted at y>` makes x a name for (part of) y - what is done to x is done to y
+    alias = {}
+    for n in nodes:
+        for d in (_walk_all(n) if n else ()):
+            if d.get('kind') == 'VarDecl' and d.get('type', {}).get('qualType', '').rstrip().endswith('&'):
+                init = [c for c in d.get('inner', []) if c.get('kind')]
+                r = root_name(init[0]) if init else None
+                if r:
+                    alias[d['name']] = r
+    changed = True
+    while changed:
+        changed = False
+        for x, y in alias.items():
+            if x in out and y not in out:
+                out.add(y)
+                changed = True
     return out
 
 
@@ -289,6 +318,9 @@ class HModel:
             i = args[1]
             ex.oblige('bounds', z3.And(i >= 0, i < obj.size), node, 'scored_cats[token] inside the vector')
             return PQRef(obj, i)
+        if opname in ('operator!=', 'operator==') and len(args) == 2 and all(isinstance(a, Rec) and a.kind == 'iterator' for a in args):
+            same = args[0].f['valid'] == args[1].f['valid']
+            return same if opname == 'operator==' else z3.Not(same)
         h = self.hooks.get('operator')
         if h is not None:
             r = h(ex, opname, args, node, want_ref)
@@ -617,6 +649,10 @@ def argmax_spec(arr, a, n, ret):
 def argmax_records(ast):
     fn = instantiated(ast, 'argmax', 'float *')
     st = {}
+    ps, fls, ints = params_of(fn), locals_of_type(fn, 'float'), locals_of_type(fn, 'int')
+    if len(ps) != 2 or len(fls) != 1 or len(ints) != 2:
+        raise CheckerError(f'utils::argmax: expected 2 parameters, 1 float local and 2 int locals (found {len(ps)}, {len(fls)}, {len(ints)}): the sidecar invariant does not fit')
+    R = dict(frm=ps[0], to=ps[1], mv=fls[0], mi=ints[0], i=ints[1])
 
     def setup(ex, m):
         N = ex.fresh('buffer_size', I_)
@@ -627,11 +663,11 @@ def argmax_records(ast):
         # precondition on the DATA: finite, non-NaN floats (every float except -inf and NaN is >= numeric_limits<float>::lowest())
         ex.assume(z3.ForAll([k], z3.Select(vec.arr, k) >= m.LOWEST))
         st.update(vec=vec, a=a, b=b)
-        return {'from': PtrInto(vec, a), 'to': PtrInto(vec, b)}
+        return {R['frm']: PtrInto(vec, a), R['to']: PtrInto(vec, b)}
 
     def inv(env):
         vec, a, b = st['vec'], st['a'], st['b']
-        off, i, mi, mv = env['from'].off, env['i'], env['max_idx'], env['max_val']
+        off, i, mi, mv = env[R['frm']].off, env[R['i']], env[R['mi']], env[R['mv']]
         k = _q()
         return z3.And(a <= off, off <= b, i == off - a,
                       z3.Implies(i == 0, z3.And(mi == -1, mv == z3.Real('float_lowest'))),
@@ -642,7 +678,7 @@ def argmax_records(ast):
     def post(ex, env, ret):
         vec, a, b = st['vec'], st['a'], st['b']
         return [('post', argmax_spec(vec.arr, a, b - a, ret), 'returns the (last) index of a maximum of [from, to), -1 for an empty range')]
-    loops = [LoopSpec(inv, variant=lambda env: st['b'] - env['from'].off, what='max_val/max_idx describe the maximum of the elements seen so far')]
+    loops = [LoopSpec(inv, variant=lambda env: st['b'] - env[R['frm']].off, what='max_val/max_idx describe the maximum of the elements seen so far')]
     return verify_function(ast, fn, 'utils::argmax<float>', setup, post, loops, ('C01', 'C09'))
 
 
@@ -724,6 +760,40 @@ def matrix_records(ast):
     return recs
 
 
+# ---------------------------------------------------------------------------- roles: the sidecar invariants name program variables by ROLE, the names are read from the AST
+def _walk(n):
+    if isinstance(n, dict):
+        yield n
+        for c in n.get('inner', []) or []:
+            yield from _walk(c)
+
+
+def params_of(fn):
+    return [c['name'] for c in fn.get('inner', []) if c.get('kind') == 'ParmVarDecl']
+
+
+def loops_of(fn):
+    return [n for n in _walk(body_of(fn)) if n.get('kind') in ('ForStmt', 'WhileStmt')]
+
+
+def counter_of(loop):
+    """the variable a loop counts with: declared in the init of a for loop; for a while loop the first local named in its condition"""
+    if loop['kind'] == 'ForStmt':
+        init = loop['inner'][0]
+        for n in _walk(init):
+            if n.get('kind') == 'VarDecl':
+                return n['name']
+    cond = loop['inner'][2] if loop['kind'] == 'ForStmt' else [c for c in loop['inner'] if c.get('kind')][0]
+    for n in _walk(cond):
+        if n.get('kind') == 'DeclRefExpr' and n.get('referencedDecl', {}).get('kind') == 'VarDecl':
+            return n['referencedDecl']['name']
+    raise CheckerError(f'loop at parsing.h:{line_of(loop)}: cannot tell its counter')
+
+
+def locals_of_type(fn, prefix):
+    return [n['name'] for n in _walk(body_of(fn)) if n.get('kind') == 'VarDecl' and n.get('type', {}).get('qualType', '').replace('const ', '').startswith(prefix)]
+
+
 # ---------------------------------------------------------------------------- parsing::compute_outside_probabilities
 def prefix_rec(P, probs, n):
     """P is the prefix-sum array of probs on [0, n]"""
@@ -741,6 +811,10 @@ def outside_contract(out, P, length):
 def outside_records(ast):
     fn = ast.function('compute_outside_probabilities')
     st = {}
+    ps, vecs, lps = params_of(fn), locals_of_type(fn, 'std::vector<float>'), loops_of(fn)
+    if len(ps) != 3 or len(vecs) != 2 or len(lps) != 3:
+        raise CheckerError(f'compute_outside_probabilities: expected 3 parameters, 2 float vectors and 3 loops (found {len(ps)}, {len(vecs)}, {len(lps)}): the sidecar invariants do not fit')
+    R = dict(probs=ps[0], length=ps[1], out=ps[2], fl=vecs[0], fr=vecs[1], i1=counter_of(lps[0]), i2=counter_of(lps[1]), j3=counter_of(lps[2]))
 
     def setup(ex, m):
         length = ex.fresh('length', I_)
@@ -750,7 +824,7 @@ def outside_records(ast):
         P = z3.Store(ex.fresh('ghostP', ARR), 0, z3.RealVal(0))
         S = z3.Store(ex.fresh('ghostS', ARR), length, z3.RealVal(0))
         st.update(length=length, probs=probs, out=out)
-        return {'probs': probs, 'length': length, 'out': out, '$P': P, '$S': S}
+        return {R['probs']: probs, R['length']: length, R['out']: out, '$P': P, '$S': S}
 
     def recs_PS(env, i):
         """the ghost recurrences as far as loop 1 has got: P on [0, i], S on [length - i, length]"""
@@ -762,14 +836,14 @@ def outside_records(ast):
 
     def inv1(env):
         L = st['length']
-        i, FL, FR, P, S = env['i'], env['from_left'], env['from_right'], env['$P'], env['$S']
+        i, FL, FR, P, S = env[R['i1']], env[R['fl']], env[R['fr']], env['$P'], env['$S']
         k = _q()
         return z3.And(i >= 0, i <= L - 1, recs_PS(env, i),
                       z3.ForAll([k], z3.Implies(z3.And(k >= 0, k <= i), z3.Select(FL.arr, k) == z3.Select(P, k))),
                       z3.ForAll([k], z3.Implies(z3.And(k >= L - i, k <= L), z3.Select(FR.arr, k) == z3.Select(S, k))))
 
     def ghost1(env):
-        L, pr, i = st['length'], st['probs'].arr, env['i']
+        L, pr, i = st['length'], st['probs'].arr, env[R['i1']]
         j = L - i
         env['$P'] = z3.Store(env['$P'], i + 1, z3.Select(env['$P'], i) + z3.Select(pr, i))
         env['$S'] = z3.Store(env['$S'], j - 1, z3.Select(env['$S'], j) + z3.Select(pr, j - 1))
@@ -782,7 +856,7 @@ def outside_records(ast):
 
     def filled(env, i, upto_j=None):
         """out(a, b) = from_left[a] + from_right[b] for the cells written so far (rows < i completely, row i up to column j)"""
-        L, out, FL, FR = st['length'], env['out'], env['from_left'], env['from_right']
+        L, out, FL, FR = st['length'], env[R['out']], env[R['fl']], env[R['fr']]
         a, b = _q('a'), _q('b')
         parts = [z3.ForAll([a, b], z3.Implies(z3.And(a >= 0, a < i, a <= b, b <= L), out.at(a, b) == z3.Select(FL.arr, a) + z3.Select(FR.arr, b)))]
         if upto_j is not None:
@@ -791,14 +865,16 @@ def outside_records(ast):
 
     def inv2(env):
         L = st['length']
-        return z3.And(env['i'] >= 0, env['i'] <= L + 1, filled(env, env['i']))
+        i = env[R['i2']]
+        return z3.And(i >= 0, i <= L + 1, filled(env, i))
 
     def inv3(env):
         L = st['length']
-        return z3.And(env['i'] >= 0, env['i'] < L + 1, env['j'] >= env['i'], env['j'] <= L + 1, filled(env, env['i'], env['j']))
+        i, j = env[R['i2']], env[R['j3']]
+        return z3.And(i >= 0, i < L + 1, j >= i, j <= L + 1, filled(env, i, j))
 
     def post(ex, env, ret):
-        L, pr, P, S, out = st['length'], st['probs'].arr, env['$P'], env['$S'], env['out']
+        L, pr, P, S, out = st['length'], st['probs'].arr, env['$P'], env['$S'], env[R['out']]
         k, a, b = _q(), _q('a'), _q('b')
         st['final'] = dict(P=P, S=S, out=out, pc=list(ex.pc))
         return [('post', prefix_rec(P, pr, L), 'ghost P is the prefix-sum array of probs on [0, length]'),
@@ -806,11 +882,11 @@ def outside_records(ast):
                  'ghost S is the suffix-sum array of probs on [0, length]'),
                 ('post', z3.ForAll([a, b], z3.Implies(z3.And(a >= 0, a <= b, b <= L, a < L, b >= 1), out.at(a, b) == z3.Select(P, a) + z3.Select(S, b))),
                  'out(a, b) = P(a) + S(b) for 0 <= a <= b <= length, a < length, 1 <= b (the cells (length, length) and (0, 0) hold other values: from_left[length] and from_right[0] are never computed)'),
-                ('frame', z3.And(env['probs'].arr == st['probs'].arr, env['length'] == st['length']), 'probs and length are not modified')]
-    loops = [LoopSpec(inv1, variant=lambda env: st['length'] - 1 - env['i'], ghost=ghost1, ghost_names=('$P', '$S'),
+                ('frame', z3.And(env[R['probs']].arr == st['probs'].arr, env[R['length']] == st['length']), 'probs and length are not modified')]
+    loops = [LoopSpec(inv1, variant=lambda env: st['length'] - 1 - env[R['i1']], ghost=ghost1, ghost_names=('$P', '$S'),
                       what='from_left[0..i] are prefix sums, from_right[length-i..length] are suffix sums'),
-             LoopSpec(inv2, variant=lambda env: st['length'] + 1 - env['i'], pre_ghost=pre_ghost2, what='rows < i of the upper triangle are filled'),
-             LoopSpec(inv3, variant=lambda env: st['length'] + 1 - env['j'], what='rows < i and columns < j of row i are filled')]
+             LoopSpec(inv2, variant=lambda env: st['length'] + 1 - env[R['i2']], pre_ghost=pre_ghost2, what='rows < i of the upper triangle are filled'),
+             LoopSpec(inv3, variant=lambda env: st['length'] + 1 - env[R['j3']], what='rows < i and columns < j of row i are filled')]
     recs = verify_function(ast, fn, 'parsing::compute_outside_probabilities', setup, post, loops, ('C01',))
     # ---- induction lemma: S(j) = P(length) - P(j) for 0 <= j <= length (downward induction on j; base j = length; step j -> j - 1)
     L = z3.Int('length')
@@ -915,9 +991,13 @@ def chart_records(ast):
         if isinstance(obj, USet):
             if name == 'count':
                 return z3.If(z3.Select(obj.f['ids'], args[0]), z3.IntVal(1), z3.IntVal(0))
-            if name == 'emplace':
+            if name in ('emplace', 'insert'):
                 obj.f['ids'] = z3.Store(obj.f['ids'], args[0], z3.BoolVal(True))
                 return None
+            if name == 'find':
+                return Rec('iterator', dict(valid=z3.Select(obj.f['ids'], args[0])))       # end() iff the key is absent
+            if name in ('end', 'cend'):
+                return Rec('iterator', dict(valid=z3.BoolVal(False)))
         if isinstance(obj, IList):
             if name == 'push_front':
                 src = args[0]
